@@ -45,6 +45,9 @@ NDARRAYS = {
 }
 
 
+FLOAT_HOOK = None      # C33 replaces float values by opaque bit patterns
+
+
 class Pool:
     """cursor over the symbolic scalars of one condition"""
 
@@ -71,6 +74,8 @@ def mk(t, P, allow_missing=True):
     if t == T.tint64:
         return P.nx('i')
     if t == T.tfloat32 or t == T.tfloat64:
+        if FLOAT_HOOK is not None:
+            return FLOAT_HOOK(t, P)
         k = P.nx('g')
         if k == 1:
             return float('nan')
@@ -155,8 +160,11 @@ def eq(t, a, b):
         return a is None and b is None
     if a is b and not isinstance(a, (list, set, dict, tuple)):
         return True                 # the very same (well-typed by construction) object came back
-    t._typecheck_one_level(b)       # the type's own (one-level, None-safe) check of the value that came back
+    if not hasattr(b, 'pattern'):
+        t._typecheck_one_level(b)       # the type's own (one-level, None-safe) check of the value that came back
     if t == T.tfloat32 or t == T.tfloat64:
+        if hasattr(a, 'pattern'):
+            return hasattr(b, 'pattern') and a.width == b.width and a.pattern == b.pattern
         return isinstance(b, float) and feq(a, b)
     if t == T.tbool:
         return isinstance(b, bool) and a == b
@@ -223,13 +231,9 @@ def catalogue(tier):
           T.tarray(T.tndarray(T.tfloat64, 1)), T.tdict(T.tstr, T.tdict(T.tstr, T.tcall))]
     if tier == 'quick':
         out = list(prims)
-        out += [T.tarray(p) for p in (T.tint32, T.tfloat64, T.tstr, T.tcall)]
-        out += [T.tset(p) for p in (T.tint64, T.tstr, L)]
-        out += [T.tdict(T.tstr, T.tint32), T.tdict(T.tint32, T.tfloat64), T.tdict(L, T.tcall)]
-        out += [T.tstruct(), T.tstruct(a=T.tfloat64, b=T.tcall), T.ttuple(), T.ttuple(L, T.tbool, T.tstr)]
-        out += [T.tinterval(T.tint32), T.tinterval(L)]
-        out += [nd[1], nd[2], nd[5], nd[8]]
-        out += [d2[1], d2[2], d2[3], d2[6], d2[8], d2[13]]
+        out += [T.tarray(T.tfloat64), T.tarray(T.tcall), T.tset(T.tstr), T.tdict(T.tstr, T.tint32), T.tdict(T.tint32, T.tfloat64),
+                T.tstruct(a=T.tfloat64, b=T.tcall), T.ttuple(L, T.tbool, T.tstr), T.tinterval(T.tint32), T.tinterval(L),
+                nd[1], nd[8], d2[1], d2[6]]
         return out
     out = list(prims)
     out += [T.tarray(p) for p in prims]
